@@ -109,7 +109,7 @@ func (Engine) Shrink(sci interface{}) []interface{} { return nil }
 
 func (e Engine) Describe() harness.EngineInfo {
 	return harness.EngineInfo{
-		Rule:        "mode B (NOT deterministic simulation; real goroutines under the Go race detector, uninstrumented tree): race-contexts = the isolation engine's scenarios (2-4 contexts writing/reading every reachable piece of per-context state, 1 in 5 with one shared code object) with one goroutine per context running in parallel, or 2-5 REPL sessions on distinct contexts fed in parallel; race-compile = 4-16 goroutines compiling 1-3 generated sources concurrently, dumps compared. distinct = distinct scenarios; every scenario is non-trivial (at least two goroutines)",
+		Rule:        "mode B (NOT deterministic simulation; real goroutines under the Go race detector, uninstrumented tree): race-contexts = the isolation engine's scenarios (2-4 contexts writing/reading every reachable piece of per-context state, 1 in 5 with one shared code object; a source module registered process-wide anew for every scenario and imported by the contexts) with one goroutine per context running in parallel, or 2-5 REPL sessions on distinct contexts fed in parallel; race-compile = 4-16 goroutines compiling 1-3 generated sources concurrently, dumps compared. distinct = distinct scenarios; every scenario is non-trivial (at least two goroutines)",
 		Real:        []string{"everything: the unmodified tree built with -race"},
 		Stubbed:     []string{"nothing (the schedule is the Go runtime's)"},
 		Assumptions: []string{"a race report kills the worker (GORACE=halt_on_error=1 exitcode=66); the driver reports it with the report text and the scenario index that was running", "the detector finds only races that actually occur on the executed paths of the sampled scenarios"},
